@@ -3,7 +3,7 @@ from __future__ import annotations
 
 from typing import Any, Dict, List
 
-from sim.gen_worker import gen_worker_script
+from sim.gen_worker import gen_worker_script, tier_knobs
 from sim.worker_world import FRAMEWORK_LABELS, enc_labels
 from ._wcommon import (ASSUMPTIONS, COMPONENTS_REAL, COMPONENTS_STUB, Hist, Violation, default_nontrivial,  # noqa: F401
                        simplifications, simulate)
@@ -39,7 +39,7 @@ MARGIN_PER_STEP_US = 60_000
 
 
 def gen(rs: int, tier: str, index: int) -> dict:
-    s = gen_worker_script(rs, KNOBS)
+    s = gen_worker_script(rs, tier_knobs(KNOBS, tier, index))
     # give some messages typed labels so that "the result carries the message's labels" is not vacuous
     from sim.rng import stream
     r = stream(rs, "c07labels")
